@@ -129,7 +129,7 @@ def strategy(tier):
                 a["comps"] = ["Rates"] if (a["name"] in inames and layout == 2) else ["Membrane"]
         need = [a["name"] for a in assigns]
         pts = G.draw_points(draw, model, 2, need)
-        return {"model": model, "points": pts, "sing": {k: [list(x) for x in v] for k, v in sing.items()}}
+        return {"model": model, "points": pts, "sing": {k: [list(x) for x in v] for k, v in sing.items()}, "preload_clamped": draw(st.integers(0, 2)) == 0}
 
     return _s()
 
@@ -189,11 +189,38 @@ def klass(case, model, name) -> str:
     return ""
 
 
+def clamped_variant(model, sing):
+    """the same expressions with one singular state turned into a parameter ("voltage clamp")"""
+    vs = sorted({v for lst in sing.values() for (v, _a, _r) in lst})
+    if not vs or len(model["states"]) < 2:
+        return None
+    v = vs[0]
+    dn = X.deriv_name(v)
+    if any(dn in X.variables(a["expr"]) for a in model["assigns"]):
+        return None
+    st_ = next(s for s in model["states"] if s["name"] == v)
+    return {
+        "states": [s for s in model["states"] if s["name"] != v],
+        "params": model["params"] + [dict(st_)],
+        "assigns": [a for a in model["assigns"] if a["name"] != dn],
+    }
+
+
 def check_case(case):
     model = case["model"]
     text = X.render_model(model)
-    ode = oracle.load_or_skip(text)
     ctx = {"text": text}
+    if case.get("preload_clamped"):
+        # history: a variant in which the singular variable is NOT a state is analysed first in the
+        # same process (its result must not leak into the analysis of the model itself)
+        cm = clamped_variant(model, case["sing"])
+        if cm is not None:
+            try:
+                B.load(X.render_model(cm)).remove_singularities()
+                ctx["preloaded"] = X.render_model(cm)
+            except Exception:
+                pass
+    ode = oracle.load_or_skip(text)
     try:
         new = ode.remove_singularities()
     except Exception as ex:
